@@ -251,7 +251,7 @@ Qed.
 Lemma forget_atomic : forall tokf c o,
   cr_atomic_op o -> atomic_op (forget_op tokf c o) \/ sscript c o = [].
 Proof.
-  intros tokf c o [Hb|Hs]; destruct o as [o|]; try contradiction; destruct o; cbn in Hb || cbn in Hs;
+  intros tokf c o [Hb|Hs]; destruct o as [o| |]; try contradiction; destruct o; cbn in Hb || cbn in Hs;
     try contradiction; cbn [sscript forget_op].
   - destruct (sql_insert_bucket c b m); [left; left; exact I|right; reflexivity|right; reflexivity].
   - destruct (negb _); [right; reflexivity|left; left; exact I].
@@ -305,7 +305,7 @@ Qed.
 Lemma single_event_one_stmt : forall c o,
   cr_single_event_op o -> sscript c o = [] \/ exists q, stmts_of (sscript c o) = [q].
 Proof.
-  intros c o H. destruct o as [o|]; try contradiction; destruct o; cbn in H; try contradiction;
+  intros c o H. destruct o as [o| |]; try contradiction; destruct o; cbn in H; try contradiction;
     cbn [sscript]; try (right; eexists; reflexivity).
   destruct (sql_bucket_rowid c b); [right; eexists; reflexivity|left; reflexivity].
 Qed.
@@ -321,7 +321,7 @@ Proof.
   assert (Hl : live s' = cop_live (live s) o).
   { unfold s'. rewrite cr_run_live, Htro. reflexivity. }
   split; [|split; [exact Hl|]].
-  - destruct o as [o|]; try contradiction; destruct o; cbn in Hb; try contradiction;
+  - destruct o as [o| |]; try contradiction; destruct o; cbn in Hb; try contradiction;
       cbn [sscript] in Htro, Hne.
     + destruct (sql_insert_bucket (live s) b m); try (exfalso; apply Hne; reflexivity).
       repeat (apply smap_fst_cons in Htro; destruct Htro as (? & ? & -> & Htro)).
@@ -331,7 +331,7 @@ Proof.
       apply map_eq_nil in Htro; subst. reflexivity.
     + repeat (apply smap_fst_cons in Htro; destruct Htro as (? & ? & -> & Htro)).
       apply map_eq_nil in Htro; subst. reflexivity.
-  - destruct o as [o|]; try contradiction; destruct o; cbn in Hb; try contradiction;
+  - destruct o as [o| |]; try contradiction; destruct o; cbn in Hb; try contradiction;
       cbn [sscript] in Htro, Hne.
     + destruct (sql_insert_bucket (live s) b m); try (exfalso; apply Hne; reflexivity).
       repeat (apply smap_fst_cons in Htro; destruct Htro as (? & ? & -> & Htro)).
@@ -346,7 +346,7 @@ Qed.
 (* ---- the reopened tables as a state the store model passes through ---- *)
 
 Definition cr_bulk_op (o : cop) : Prop :=
-  match o with Std (InsertMany _ _) | BulkOverflow _ _ _ => True | _ => False end.
+  match o with Std (InsertMany _ _) | BulkOverflow _ _ _ | UpsertOverflow _ _ _ => True | _ => False end.
 
 Lemma apply_stmts_live_after : forall ms c, apply_stmts c (stmts_of ms) = live_after c ms.
 Proof.
@@ -447,7 +447,7 @@ Proof.
     exists o, h2. split; [reflexivity|]. split; [|split; assumption].
     assert (Hna : ~ cr_atomic_op o).
     { intros Ha. specialize (Hat h1 o h2 Hh Ha). rewrite Hcl, app_length in Hat. lia. }
-    destruct o as [o|]; [|exact I]. destruct o; cbn [cr_bulk_op]; try exact I;
+    destruct o as [o| |]; [|exact I|exact I]. destruct o; cbn [cr_bulk_op]; try exact I;
       try (exfalso; apply Hna; first [left; exact I | right; exact I]);
       exfalso; cbn [sscript] in Hlen; try destruct (limit =? 0); cbn in Hlen; lia.
 Qed.
@@ -557,6 +557,28 @@ Proof.
   - cbn [map apply_stmts fold_left]. symmetry. apply bulk_unknown. exact E.
 Qed.
 
+(* ---- the live view of an insert_many whose upsert loop raises at bind time ---- *)
+
+Lemma with_id_firstn_no_rows : forall k es, filter no_id (firstn k (with_id es)) = [].
+Proof.
+  intros k es. unfold with_id. generalize (filter_forall _ (fun e => negb (no_id e)) es).
+  generalize (filter (fun e => negb (no_id e)) es). clear es.
+  induction k as [|k IH]; intros l H; [reflexivity|]. destruct H as [|e l He H]; [reflexivity|].
+  cbn [firstn filter]. destruct (no_id e); [discriminate|]. apply IH, H.
+Qed.
+
+(* ... leaves, in the connection's view, what an insert_many of the k id-carrying events
+   before the offending one leaves; it raises *)
+Lemma cop_live_upsert_overflow : forall c b es k,
+  cop_live c (UpsertOverflow b es k) = fst (sq_step c (InsertMany b (firstn k (with_id es)))) /\
+  cop_out c (UpsertOverflow b es k) = Err OtherError.
+Proof.
+  intros c b es k. split; [|reflexivity]. unfold cop_live. cbn [sscript sq_step].
+  rewrite with_id_firstn_no_rows.
+  rewrite live_after_app, upserts_live. unfold live_after. cbn [fold_left live_micro apply_stmts].
+  destruct (sql_bucket_rowid c b); reflexivity.
+Qed.
+
 (* a crash between two rows of an executemany finds what a crash before it finds *)
 Lemma exec_rows_keep_durable : forall lazy qs s cs j,
   reopen (cr_run lazy s (firstn j (combine (map SExec qs) cs))) = reopen s.
@@ -618,7 +640,7 @@ Proof. intros. rewrite fold_left_app. reflexivity. Qed.
 
 Lemma sscript_settled : forall c o, fold_left settle (sscript c o) true = true.
 Proof.
-  intros c o. destruct o as [o|b es k]; [destruct o|]; cbn [sscript].
+  intros c o. destruct o as [o|b es k|b es k]; [destruct o| |]; cbn [sscript].
   - destruct (sql_insert_bucket c b m); reflexivity.
   - destruct (negb _); reflexivity.
   - reflexivity.
@@ -632,6 +654,7 @@ Proof.
   - reflexivity.
   - destruct (limit =? 0); reflexivity.
   - reflexivity.
+  - apply ends_with_cc_settled.
   - apply ends_with_cc_settled.
 Qed.
 
